@@ -52,6 +52,12 @@ def json_structured(machine, doc):
     d10 = _edit(doc, ["header", "type"], other)
     d10["header"]["version"] = "1.0"
     out.append({"key": "header.type:swapped@1.0", "data": _dumpj(d10), "must": "accept"})
+    d11 = _edit(doc, ["header", "type"], other)
+    d11["header"]["version"] = "1.1"
+    out.append({"key": "header.type:swapped@1.1", "data": _dumpj(d11), "must": "reject"})
+    d11b = copy.deepcopy(doc)
+    d11b["header"]["version"] = "1.1"
+    out.append({"key": "header.version:1.1-own-type", "data": _dumpj(d11b), "must": "accept"})
     for i, v in enumerate(["1", "1.2.3", "a.b", "", "1.x", 12, None, "1.-2"]):
         add("header.version:mangled", ["header", "version"], v)
     add("header:deleted", ["header"], _DEL)
@@ -186,6 +192,12 @@ def ini_structured(text):
         r = set_opt("header", "type", "productmd.images")(secs)
         return set_opt("header", "version", "1.0")(r) if r else None
     variant("header.type:swapped@1.0", swapped_10, "accept")
+
+    def swapped_11(secs):
+        r = set_opt("header", "type", "productmd.images")(secs)
+        return set_opt("header", "version", "1.1")(r) if r else None
+    variant("header.type:swapped@1.1", swapped_11)
+    variant("header.version:1.1-own-type", set_opt("header", "version", "1.1"), "accept")
     for v in ["1", "a.b", "1.2.3", "1.x", ""]:
         variant("header.version:mangled", set_opt("header", "version", v))
     variant("release:deleted", del_sec("release"))
